@@ -266,6 +266,9 @@ func gen(stream string, seed uint64, n int, path string) {
 		}
 		out.Line(c.tokens()...)
 		switch stream {
+		case "cleanup":
+			out.Line("cl", "4")
+			out.Line("cl", "6")
 		case "rules":
 			res := runReal(c)
 			for k := 0; k <= len(res.v4); k++ {
@@ -485,6 +488,12 @@ func execOps(stream, in, outPath string) {
 			} else {
 				out.Line(cur.status)
 			}
+		case "cl": // stream cleanup: the REAL Run with CleanupOnly over this configuration's own rules
+			if cur.status != "ok" || len(t) != 2 {
+				out.Line("none")
+				break
+			}
+			out.Line(cleanupResidue(curCfg, cur, t[1] == "6")...)
 		case "r":
 			lines := cur.v4
 			if len(t) == 3 && t[1] == "6" {
